@@ -212,7 +212,7 @@ class RemoteWorker(Worker, metaclass=RemoteWorkerMeta):
 
                 if not result:
                     if not self._remote_dead:
-                        send_msg(self._ctrl_sock, None, comment='ctrl: release')
+                        self._release_remote_ctrl()
                     logger.details('Closing frontend-side control socket')
                     self._ctrl_sock.close()
                     self._remote_dead = True
@@ -269,7 +269,7 @@ class RemoteWorker(Worker, metaclass=RemoteWorkerMeta):
                     return False
 
                 if not self._remote_dead:
-                    send_msg(self._ctrl_sock, None, 'ctrl: release')
+                    self._release_remote_ctrl()
                 logger.debug('Closing frontend-side control socket')
                 self._ctrl_sock.close()
                 self._remote_dead = True
@@ -349,7 +349,7 @@ class RemoteWorker(Worker, metaclass=RemoteWorkerMeta):
                     return False
 
                 if not self._remote_dead:
-                    send_msg(self._ctrl_sock, None, comment='ctrl: release')
+                    self._release_remote_ctrl()
                 logger.debug('Closing frontend-side control socket')
                 self._ctrl_sock.close()
                 self._remote_dead = True
@@ -365,6 +365,15 @@ class RemoteWorker(Worker, metaclass=RemoteWorkerMeta):
 
     def _get_result(self):
         return self._result
+
+    def _release_remote_ctrl(self):
+        ''' Tell the remote control thread that it is not needed anymore. The child is dead at this point and the remote side
+            might have closed the control connection on its own already.
+        '''
+        try:
+            send_msg(self._ctrl_sock, None, comment='ctrl: release')
+        except ConnectionClosedError:
+            pass
 
     #
     # Running mechanism
